@@ -54,12 +54,23 @@ bool SPxSolverBase<R>::read(std::istream& in, NameSet* rowNames,
 
    this->unLoad();
 
-   if(!SPxLPBase<R>::read(in, rowNames, colNames, intVars))
-      return false;
+   bool success = false;
+
+   // whatever happens to the stream, the basis must know its LP again: a failed read leaves the solver with the
+   // cleared or unchanged LP, and solve() looks at the LP of the basis before it loads one
+   try
+   {
+      success = SPxLPBase<R>::read(in, rowNames, colNames, intVars);
+   }
+   catch(...)
+   {
+      this->theLP = this;
+      throw;
+   }
 
    this->theLP = this;
 
-   return true;
+   return success;
 }
 
 template <class R>
